@@ -2,8 +2,10 @@
 
 An observation is an opaque record: a unique `tag` (the harness puts it in `x`), its timestamp as
 an integer (C03 proves that the field-wise `<`, `>`, `<=` of `ObsTime` are the order of the epoch
-instants) and its analytical-feature values. A track is the list `__POINTS` plus the list of
-feature names (`__analyticalFeaturesDico`, in insertion order).
+instants) and its analytical-feature values (`Obs.features`, a list of columns). A track is the list
+`__POINTS` plus the feature table `__analyticalFeaturesDico`: the pairs (name, column index) in the
+dict's insertion order, so `getListAnalyticalFeatures()` is the list of first components and a read by
+name goes through the column index (`Model/SeqOps.lean`: `readAF`).
 
 Python list semantics that the code relies on are modelled as they are: `L[i]` with a negative
 index wraps, an index outside `-N..N-1` raises `IndexError` (`none` / `Res.indexErr` here),
@@ -16,13 +18,19 @@ structure Obs where
   feats : List Int
 deriving DecidableEq, Repr
 
+/-- `__analyticalFeaturesDico`: (feature name, column index in `Obs.features`), in insertion order. -/
+abbrev Table := List (String × Nat)
+
 structure Track where
   pts : List Obs
-  names : List String
+  table : Table
 deriving DecidableEq, Repr
 
-/-- `__transmitAF`: the new track gets (a copy of) the source's feature-name table. -/
-def transmitAF (pts : List Obs) (src : Track) : Track := ⟨pts, src.names⟩
+/-- `getListAnalyticalFeatures()`: `list(self.__analyticalFeaturesDico.keys())` -/
+def Track.names (tr : Track) : List String := tr.table.map (·.1)
+
+/-- `__transmitAF`: the new track gets a copy of the source's feature table (names AND column indices). -/
+def transmitAF (pts : List Obs) (src : Track) : Track := ⟨pts, src.table⟩
 
 /-- Python `L[i]`: `none` is `IndexError`. -/
 def pyGet {α : Type} (l : List α) (i : Int) : Option α :=
@@ -138,7 +146,7 @@ def pyInsert {α : Type} (l : List α) (i : Int) (x : α) : List α :=
 /-- `insertObs(obs)` / `insertObsInChronoOrder(obs)`; `none` = `IndexError` (or fuel). -/
 def insertChrono (tr : Track) (o : Obs) : Option Track :=
   match insertionIndex (tr.pts.map (·.time)) o.time with
-  | .ok i => some ⟨pyInsert tr.pts i o, tr.names⟩
+  | .ok i => some ⟨pyInsert tr.pts i o, tr.table⟩
   | _ => none
 
 /-! ### `Track.sort` -/
@@ -157,7 +165,7 @@ def gather {α : Type} (l : List α) : List Nat → Option (List α)
     | _, _ => none
 
 def sortWith (perm : List Nat) (tr : Track) : Option Track :=
-  (gather tr.pts perm).map (fun p => ⟨p, tr.names⟩)
+  (gather tr.pts perm).map (fun p => ⟨p, tr.table⟩)
 
 def sortByTime (tr : Track) : Option Track := sortWith (argsort (tr.pts.map (·.time))) tr
 
@@ -220,9 +228,10 @@ def sameNames : List String → List String → Bool
   | a :: as, b :: bs => a == b && sameNames as bs
   | _, _ => false
 
-/-- `t1 + t2` -/
+/-- `t1 + t2`: the points of both; the table of `t1` is transmitted when the two lists of NAMES are equal
+position by position (the column indices of `t2` are not looked at), otherwise the sum has an empty table. -/
 def concat (t1 t2 : Track) : Track :=
-  ⟨t1.pts ++ t2.pts, if sameNames t1.names t2.names then t1.names else []⟩
+  ⟨t1.pts ++ t2.pts, if sameNames t1.names t2.names then t1.table else []⟩
 
 /-- countdown form of `L[::n]` for `n ≥ 1`: keep an element when the counter is 0. -/
 def stepAux {α : Type} (n : Nat) : Nat → List α → List α
